@@ -46,11 +46,14 @@ del EXCLUDED['abel.tools.math.guss_gaussian']
 # write into an argument exists (the dynamic runs cover them): the reason is
 # stated; each is listed by name in the theorem safe_all_public.
 ALIAS_UNPROVED_ARGS = {
-    'abel.rbasex.rbasex_transform':
-        'the module-level cache keeps a reference to the caller\'s `weights` array (rbasex._weights and the cached '
-        'Distributions object); the analysis has one undifferentiated cache, whose other arrays are written in place',
-    'abel.transform.Transform':
-        'calls rbasex_transform with **transform_options (may contain `weights`): same reason',
+    # callable: (parameter names for which `safe_args` is not established, reason)
+    'abel.rbasex.rbasex_transform': (
+        ['weights'],
+        'the cached Distributions object (rbasex._dst) keeps a reference to the caller\'s `weights` array; the '
+        'analysis has one undifferentiated cache, whose other arrays are written in place'),
+    'abel.transform.Transform': (
+        ['transform_options'],
+        'calls rbasex_transform with **transform_options (may contain `weights`): same reason'),
 }
 
 _TO = "verbose=False, basis_dir=None"
@@ -339,6 +342,133 @@ SPECS = {
 for _k in range(1, 8):
     SPECS['abel.tools.transform_pairs.profile%d' % _k] = dict(arrays=['r'], calls=[
         "abel.tools.transform_pairs.profile%d(A.arange(20, label='r', step=0.05, start=0.05))" % _k], only=['f64', 'f32'])
+
+
+# ---------------------------------------------------------------------------
+# Second round: every transform function and Transform is also called with
+# dr != 1 and the other documented numeric options (so that the repeat /
+# repeat-after-other-calls clauses reach the scaled-cache paths), and every
+# array-like parameter appears as a float64 ndarray in a call that reaches the
+# code paths of the non-default scalar options (stretch, reduced, r_0, ...).
+_MORE = {
+    'abel.basex.basex_transform': [
+        "abel.basex.basex_transform(A.half(9, 11, label='data'), sigma=1.0, reg=1.0, dr=2.0, %s)" % _TO,
+        "abel.basex.basex_transform(A.half(9, 11, label='data'), sigma=1.0, reg=1.0, dr=0.5, correction=False, %s)" % _TO,
+        "abel.basex.basex_transform(A.half(9, 11, label='data'), sigma=1.0, dr=0.25, direction='forward', %s)" % _TO],
+    'abel.basex.get_bs_cached': [
+        "abel.basex.get_bs_cached(9, sigma=1.0, reg=1.0, dr=0.5, %s)" % _TO,
+        "abel.basex.get_bs_cached(9, sigma=1.0, reg=1.0, dr=0.5, direction='forward', %s)" % _TO],
+    'abel.dasch.two_point_transform': ["abel.dasch.two_point_transform(A.half(9, 11), dr=2.0, %s)" % _TO],
+    'abel.dasch.three_point_transform': ["abel.dasch.three_point_transform(A.half(9, 11), dr=0.5, %s)" % _TO,
+                                         "abel.dasch.three_point_transform(A.half(1, 11)[0], dr=2.0, %s)" % _TO],
+    'abel.dasch.onion_peeling_transform': ["abel.dasch.onion_peeling_transform(A.half(9, 11), dr=0.5, %s)" % _TO],
+    'abel.daun.daun_transform': [
+        "abel.daun.daun_transform(A.half(9, 11, label='data'), dr=0.5, %s)" % _TO,
+        "abel.daun.daun_transform(A.half(9, 11, label='data'), degree=1, reg=('diff', 2.0), dr=2.0, %s)" % _TO,
+        "abel.daun.daun_transform(A.half(9, 11, label='data'), degree=3, reg=0.5, dr=0.5, direction='forward', %s)" % _TO,
+        "abel.daun.daun_transform(A.half(5, 9, label='data'), degree=0, reg='nonneg', dr=0.5, %s)" % _TO],
+    'abel.daun.get_bs_cached': [
+        "abel.daun.get_bs_cached(11, degree=2, reg_type='L2', strength=0.5, direction='forward', basis_dir=None)"],
+    'abel.direct.direct_transform': [
+        "abel.direct.direct_transform(A.half(7, 11, label='fr'), dr=2.0, direction='forward', backend='python')",
+        "abel.direct.direct_transform(A.half(7, 11, label='fr'), r=A.arange(11, label='r', step=0.5), backend='python')"],
+    'abel.hansenlaw.hansenlaw_transform': [
+        "abel.hansenlaw.hansenlaw_transform(A.half(9, 11, label='image'), dr=2.0)",
+        "abel.hansenlaw.hansenlaw_transform(A.half(9, 11, label='image'), dr=0.5, hold_order=1, direction='forward')"],
+    'abel.linbasex.linbasex_transform_full': [
+        "abel.linbasex.linbasex_transform_full(A.img(21, 21), proj_angles=A.arr([0, np.pi / 4, np.pi / 2], label='proj_angles'), "
+        "legendre_orders=A.arr([0, 2, 4], label='legendre_orders', force_dtype=int), radial_step=2, smoothing=0.5, threshold=0.1, "
+        "clip=1, norm_range=(2, 8), rcond=1e-3, %s)" % _TO],
+    'abel.linbasex.linbasex_transform': [
+        "abel.linbasex.linbasex_transform(A.half(11, 11), radial_step=2, smoothing=0.5, threshold=0.1, clip=1, %s)" % _TO],
+    'abel.onion_bordas.onion_bordas_transform': ["abel.onion_bordas.onion_bordas_transform(A.half(9, 11), dr=2.0)"],
+    'abel.rbasex.rbasex_transform': [
+        "abel.rbasex.rbasex_transform(A.img(21, 21), rmax=8, order=4, reg=('L2', 5.0))",
+        "abel.rbasex.rbasex_transform(A.img(21, 21), origin=(9, 11), rmax='all', order=2, reg=('SVD', 0.1), out='full')",
+        "abel.rbasex.rbasex_transform(A.img(21, 23), order=3, direction='forward', reg=None, out='same')"],
+    'abel.transform.Transform': [
+        # dr in transform_options, angular integration without / with an (empty) option dict of its own
+        "abel.transform.Transform(A.img(21, 21), method='basex', angular_integration=True, "
+        "transform_options=A.dict(dict(basis_dir=None, verbose=False, dr=0.5), label='transform_options'))",
+        "abel.transform.Transform(A.img(21, 21), method='hansenlaw', angular_integration=True, "
+        "transform_options=A.dict(dict(dr=0.5), label='transform_options'), "
+        "angular_integration_options=A.dict(dict(), label='angular_integration_options'))",
+        "abel.transform.Transform(A.img(21, 21), method='hansenlaw', angular_integration=True)",
+        "abel.transform.Transform(A.img(21, 21), method='three_point', direction='inverse', symmetry_axis=0, "
+        "transform_options=A.dict(dict(basis_dir=None, dr=2.0), label='transform_options'), "
+        "center_options=A.dict(dict(), label='center_options'))",
+        "abel.transform.Transform(A.img(21, 21), method='daun', direction='forward', "
+        "transform_options=A.dict(dict(basis_dir=None, verbose=False, dr=0.5, degree=2), label='transform_options'))",
+        "abel.transform.Transform(A.img(21, 21), method='direct', origin='com', "
+        "transform_options=A.dict(dict(backend='python', dr=0.5), label='transform_options'), "
+        "center_options=A.dict(dict(order=1), label='center_options'))",
+        "abel.transform.Transform(A.img(21, 21), method='onion_bordas', transform_options=A.dict(dict(dr=0.5), label='transform_options'))",
+        "abel.transform.Transform(A.img(21, 21), method='rbasex', transform_options=A.dict(dict(order=2, reg=('L2', 1.0), "
+        "weights=A.rand(21, 21, label='weights', lo=0.5, hi=1.5)), label='transform_options'))"],
+    # ---- coefficient arrays as float64 ndarrays together with stretch / shift / reduced
+    'abel.tools.polynomial.Polynomial': [
+        "abel.tools.polynomial.Polynomial(A.arange(15, label='r'), 2.0, 9.0, A.arr([1.0, -0.5, 0.25, 0.0], label='c'), s=2.0)",
+        "abel.tools.polynomial.Polynomial(A.arange(15, label='r'), 2.0, 9.0, A.arr([1.0, -0.5, 0.25], label='c'), r_0=1.0, s=0.5, reduced=True)",
+        "abel.tools.polynomial.Polynomial(A.arange(15, label='r'), 2.0, 9.0, A.arr([1.0, -0.5, 0.25], label='c'), reduced=True)",
+        "abel.tools.polynomial.Polynomial(A.arange(15, label='r'), 2.0, 9.0, A.arr([1.0, -0.5, 0.25], label='c'), r_0=3.0)"],
+    'abel.tools.polynomial.PiecewisePolynomial': [
+        "abel.tools.polynomial.PiecewisePolynomial(A.arange(15, label='r'), A.list([(1.0, 4.0, A.arr([1.0, 0.5], label='c0'), 0.5, 2.0), "
+        "(4.0, 8.0, A.arr([3.0, -0.25, 0.01], label='c1'), 1.0, 0.5)], label='ranges'))"],
+    'abel.tools.polynomial.SPolynomial': [
+        "(lambda rc: abel.tools.polynomial.SPolynomial(A.arr(rc[0], label='r'), A.arr(rc[1], label='cos'), 2.0, 7.0, "
+        "A.arr([[1.0, 0.0, 0.5], [0.0, 0.1, 0.0], [0.2, 0.0, 0.3]], label='c'), s=2.0))(abel.tools.polynomial.rcos(shape=(15, 17)))",
+        "(lambda rc: abel.tools.polynomial.SPolynomial(A.arr(rc[0], label='r'), A.arr(rc[1], label='cos'), 2.0, 7.0, "
+        "A.arr([[1.0, 0.0, 0.5], [0.0, 0.1, 0.0], [0.2, 0.0, 0.3]], label='c'), r_0=2.0))(abel.tools.polynomial.rcos(shape=(15, 17)))"],
+    'abel.tools.polynomial.PiecewiseSPolynomial': [
+        "(lambda rc: abel.tools.polynomial.PiecewiseSPolynomial(A.arr(rc[0], label='r'), A.arr(rc[1], label='cos'), "
+        "A.list([(1.0, 4.0, A.arr([[1.0, 0.5], [0.0, 0.2]], label='c0'), 0.5, 2.0), "
+        "(4.0, 7.0, A.arr([[3.0, -0.25, 0.01]], label='c1'), 1.0, 0.5)], label='ranges')))(abel.tools.polynomial.rcos(shape=(15, 17)))"],
+    'abel.tools.polynomial.Angular': [
+        "(lambda a: (a, a * abel.tools.polynomial.Angular.cos(2), a / 4.0))(abel.tools.polynomial.Angular(A.arr([1.0, 0.0, 0.5, 0.0], label='c')))"],
+    'abel.tools.analytical.Polynomial': [
+        "abel.tools.analytical.Polynomial(21, 10.0, 2.0, 8.0, A.arr([1.0, -0.5, 0.25], label='c'), r_0=1.0, s=2.0, reduced=True, symmetric=False)",
+        "abel.tools.analytical.Polynomial(21, 10.0, 2.0, 8.0, A.arr([1.0, -0.5, 0.25, 0.0], label='c'), s=0.5)",
+        "abel.tools.analytical.Polynomial(21, 10.0, 2.0, 8.0, A.arr([1.0, -0.5, 0.25], label='c'), reduced=True)"],
+    'abel.tools.analytical.PiecewisePolynomial': [
+        "abel.tools.analytical.PiecewisePolynomial(21, 10.0, A.list([(1.0, 4.0, A.arr([1.0, 0.5], label='c0'), 0.5, 2.0), "
+        "(4.0, 8.0, A.arr([3.0, -0.25, 0.01], label='c1'), 1.0, 0.5)], label='ranges'), symmetric=False)"],
+    # ---- further array-like parameters that so far were passed only as lists / never as ndarrays
+    'abel.linbasex.get_bs_cached': [
+        "abel.linbasex.get_bs_cached(21, basis_dir=None, legendre_orders=A.arr([0, 2, 4], label='legendre_orders', force_dtype=int), "
+        "proj_angles=A.arr([0, np.pi / 4, np.pi / 2], label='proj_angles'), radial_step=2, clip=1)"],
+    'abel.linbasex.int_beta': [
+        "abel.linbasex.int_beta(A.rand(3, 16, label='Beta', lo=1.0), radial_step=2, threshold=0.3, regions=A.list([(2, 6), (7, 12)], label='regions'))"],
+    'abel.tools.vmi.radial_integration': [
+        "abel.tools.vmi.radial_integration(A.img(31, 31), origin=(14, 16), radial_ranges=A.list([(3, 7), (7, 12)], label='radial_ranges'), mode='raw')"],
+    'abel.tools.vmi.toPES': [
+        "abel.tools.vmi.toPES(A.arange(30, label='radial', step=0.5), A.gauss(30, label='intensity'), 3.4e-4, photon_energy=2.5, Vrep=-1500, zoom=1.5)"],
+    'abel.tools.center.set_center': [
+        "abel.tools.center.set_center(A.img(21, 23, label='data'), A.arr([9.3, 12.6], label='origin'), crop='maintain_data', axes=0, order=2)"],
+    'abel.tools.center.center_image': [
+        "abel.tools.center.center_image(A.img(21, 23), method=A.arr([9.3, 12.6], label='method'), crop='valid_region', order=1)",
+        "abel.tools.center.center_image(A.img(21, 23), method='gaussian', odd_size=True, square=True)",
+        "abel.tools.center.center_image(A.img(31, 31), method='slice', crop='maintain_data')"],
+    'abel.tools.symmetry.get_image_quadrants': [
+        "abel.tools.symmetry.get_image_quadrants(A.img(9, 11), symmetry_axis=1, use_quadrants=(True, True, False, False))",
+        "abel.tools.symmetry.get_image_quadrants(A.img(10, 12), symmetry_axis=(0, 1), symmetrize_method='fourier')"],
+    'abel.tools.symmetry.put_image_quadrants': [
+        "abel.tools.symmetry.put_image_quadrants((A.rand(5, 6, label='Q0'), A.rand(5, 6, label='Q1'), A.rand(5, 6, label='Q2'), A.rand(5, 6, label='Q3')), (9, 11), symmetry_axis=0)",
+        "abel.tools.symmetry.put_image_quadrants((A.rand(5, 6, label='Q0'), A.rand(5, 6, label='Q1'), A.rand(5, 6, label='Q2'), A.rand(5, 6, label='Q3')), (10, 11), symmetry_axis=1)"],
+    'abel.tools.polar.reproject_image_into_polar': [
+        "abel.tools.polar.reproject_image_into_polar(A.img(21, 23, label='data'), origin=A.arr([9.5, 8.25], label='origin'), dr=2, dt=0.5)"],
+    'abel.tools.vmi.Distributions': [
+        "(lambda D: (lambda r: (r, r.cos(), r.harmonics()))(D(A.img(21, 23))))"
+        "(abel.tools.vmi.Distributions(A.arr([9, 10], label='origin', force_dtype=int), rmax=8, order=2, weights=A.rand(21, 23, label='weights', lo=0.5, hi=1.5)))"],
+    'abel.tools.circularize.circularize_image': [
+        "abel.tools.circularize.circularize_image(A.img(31, 31), method='lsq', dr=0.5, dt=0.6, tol=0.0, ref_angle=1.0, inverse=True)"],
+    'abel.tools.math.gradient': [
+        "abel.tools.math.gradient(A.img(7, 9, label='f'), x=A.arr([0, 1, 2.5, 3, 4.2, 5, 6.4], label='x'), axis=0)"],
+}
+# (origin / method given as small 1-D ndarrays above are unpacked into numbers by the callees; they are
+#  checked for mutation dynamically like every array built by the factory, but are not array parameters
+#  of the alias programs: `row, col = origin; row += height` rebinds a number)
+for _k, _v in _MORE.items():
+    SPECS[_k]['calls'] = list(SPECS[_k]['calls']) + _v
 
 
 def public_callables():
